@@ -12,6 +12,7 @@ import re
 
 from .. import c15_ast as A
 from .. import c15_gen as G
+from .. import c15_ctx as C
 from .. import lib, prog
 
 PROP = "C15"
@@ -22,9 +23,10 @@ PROP_FILE = "Props/C15.v"
 PAREN_OVERRIDE = os.environ.get("C15_PATTERN_PAREN", "").strip().lower()
 if PAREN_OVERRIDE not in ("", "true", "false"):
     raise lib.Infra("C15_PATTERN_PAREN must be true or false")
-PRELUDE = ("From Coq Require Import List.\nFrom AV Require Import Check.CheckModel.\nImport ListNotations.\n"
+PRELUDE = ("From Coq Require Import List.\nFrom AV Require Import Check.CheckModel.\nFrom AV Require Import Check.PatCtxModel.\nImport ListNotations.\n"
            "Definition c15_pp : bool := %s.\n"
-           "Definition pv {V} (p : pat V) : list V := pat_vars c15_pp p.\n"
+           "Definition pvi (p : xpat ident) : list ident := xpat_vars ident_eqb c15_pp p.\n"
+           "Definition pvn (p : xpat nat) : list nat := xpat_vars Nat.eqb c15_pp p.\n"
            "Definition c15_late : counters := map (fun i => (Base i, 3)) (seq 0 60).\n"
            "Definition c15_run (T : text) := let P := parse_text T in (map (fun k => (invoke [] P k, check [] P k, check c15_late P k)) [KAscent; KAscentPar; KAscentRun; KAscentRunPar], offenders [] P).\n"
            % (PAREN_OVERRIDE or "pattern_get_vars_traverses_paren"))
@@ -256,7 +258,53 @@ def gen_cases(tier, seed):
                 mp, exp = G.mutate(rng, base, "capture", "%dk%d" % (b, ki))
                 cases.append(dict(id="b%dc%d" % (b, ki), program=mp, expect=[exp], mutation="capture", info=info, only_kind=kind))
     STATS["skipped_bases"] = skipped
+    cases += ctx_cases(tier, seed, [c for c in cases if c["mutation"] == "none"])
     return cases
+
+
+def ctx_cases(tier, seed, bases):
+    """the systematic family 'every constructor of the model's pattern syntax as a context of the variable that is bound
+    twice' (gen/c15_ctx.py): exhaustive at depth 1 (every frame x every binder position x {the rebinding binder, the first
+    binder} sits below it), every leaf, every ordered pair of constructors at depth 2, random deeper stacks; the host rules
+    rotate over the generated well-formed programs (any clause position, the rebinding last or followed by clauses)"""
+    cons = C.check_against_model()
+    rng = lib.rng_for(seed, PROP, "ctx")
+    plan = []
+    for f in C.FRAME_LIST:
+        for form in G.CTX_FORMS:
+            for which in ("second", "first"):
+                plan.append(([f], "ident", form, which))
+    for leaf in sorted(C.LEAVES):
+        for form in G.CTX_FORMS:
+            fr = [rng.choice(C.FRAME_LIST)]
+            plan.append((fr, leaf, form, "second"))
+    reach = [c for c in cons if C.FRAMES[c]]
+    for a in reach:
+        for b in reach:
+            plan.append(([rng.choice(C.FRAMES[a]), rng.choice(C.FRAMES[b])], rng.choice(sorted(C.LEAVES)), rng.choice(G.CTX_FORMS),
+                         rng.choice(["second", "first", "both"])))
+    for _ in range(24 if tier == "quick" else 600):
+        form = rng.choice(G.CTX_FORMS)
+        frames, leaf = C.random_context(rng, form, False, depth=rng.choice([3, 3, 4, 5]))
+        plan.append((frames, leaf, form, rng.choice(["second", "first", "both"])))
+    STATS["ctx_unreachable_constructors"] = sorted(c for c in cons if not C.FRAMES[c])
+    if not bases:
+        return []
+    out = []
+    start = rng.randrange(len(bases))
+    for i, (frames, leaf, form, which) in enumerate(plan):
+        for t in range(len(bases)):
+            base = bases[(start + i + t) % len(bases)]
+            try:
+                mp = copy.deepcopy(base["program"])
+                exp = G.mut_shadow_ctx(rng, mp, form=form, frames=frames, leaf=leaf, which=which, site=["last", "middle", "random"][i % 3])
+                A.rust_text(mp)
+                A.coq_program(mp)
+            except (G.NoSite, IndexError):
+                continue
+            out.append(dict(id="x%d" % i, program=mp, expect=[exp], mutation="shadow_ctx", info=base["info"]))
+            break
+    return out
 
 
 def front_records(cases):
@@ -327,6 +375,9 @@ def rustc_sample(tier, seed, cases):
     muts = [c for c in cases if c["mutation"] != "none" and "+" not in c["mutation"] and c["info"]["rustc_ok"]]
     rng.shuffle(ok_bases)
     rng.shuffle(muts)
+    # well-formed programs whose binders bind NEW variables below stacks of pattern constructors: two of them in every sample
+    first = [c["id"] for c in ok_bases if c["info"].get("contexts")][:2]
+    ok_bases = [c for c in ok_bases if c["id"] in first] + [c for c in ok_bases if c["id"] not in first]
     order = sorted(set(c["mutation"] for c in muts), key=lambda m: (m not in G.RUSTC_ONLY, not G.MUTATIONS.get(m, (0, 0, False))[2], m))
     nb = max(3, n // 5)
     picks, per = [], 0
@@ -503,6 +554,7 @@ def tie(tier, seed, replay):
         distribution=dict(front_by_mutation=dist, front_cases=nfront, rustc_jobs=rdist,
                           programs=len(cases), decorations=_deco_hist(cases), skipped_bases=STATS.get("skipped_bases", 0),
                           attribute_positions=_attr_hist(cases), rebinding_patterns=_shadow_hist(cases),
+                          rebinding_contexts=_ctx_hist(cases),
                           pattern_get_vars_traverses_paren=(PAREN_OVERRIDE or "CheckModel.pattern_get_vars_traverses_paren")),
         mismatches=mism,
         trusted_base=["gen/c15_ast.py renderers (Rust text and Coq term from one AST), gen/c15_gen.py injections and their classes (python oracle)",
@@ -514,8 +566,12 @@ def tie(tier, seed, replay):
                      "macro bodies mention only their parameters (macro-local variables: C08); no disjunctions (C07)",
                      "generated identifiers of the reserved name space (__1, __arg_pattern_, __x_) are not used by programs",
                      "unknown attributes on a relation are rejected by rustc, not by the macro (checked on the sampled crates only)",
-                     "patterns: identifier, x @ p, _, (p), &p, tuples; the variables a binder reports are pat_vars of the model with the parameter "
-                     "pattern_get_vars_traverses_paren = %s; or-patterns, struct patterns, macro and box patterns are not generated" % (PAREN_OVERRIDE or "the value in CheckModel.v")],
+                     "patterns: every arm of pattern_get_vars that recurses is generated as a context of the variable (identifier in its four binding modes, "
+                     "w @ p, (p), &p, tuples, slices, tuple structs, structs incl. shorthand fields and `..`, or-patterns whose alternatives bind the same "
+                     "variables) except the type ascription p : T, which no pattern position of the macros can parse; the variables a binder reports are "
+                     "PatCtxModel.xpat_vars with the parameter pattern_get_vars_traverses_paren = %s; the order of the variables of an or-pattern is a HashSet's "
+                     "in the code and the first alternative's in the model (generated patterns rebind one variable, so the order is not observable); macro "
+                     "patterns (m!(x)) and box patterns are opaque to the helper and not generated" % (PAREN_OVERRIDE or "the value in CheckModel.v")],
         extra=dict(rustc_sample=[dict(job=r["job"]["id"], kind=r["kind"], mutation=r["case"]["mutation"], want=r["want"], compiled=r["compiled"],
                                       errors=[(e["line"], e["text"]) for e in r["errors"][:2]]) for r in rres][:40]))
 
@@ -538,6 +594,22 @@ def _shadow_hist(cases):
             if e["cls"] == "shadow" and "form" in e:
                 k = "%s:%s%s" % (e["form"], e.get("shape") or "ident", ":hidden" if e.get("hidden") else "")
                 h[k] = h.get(k, 0) + 1
+    return h
+
+
+def _ctx_hist(cases):
+    """the systematic context family: model constructor above the variable x binder position x which binder sits below it"""
+    h = dict(by_constructor={}, by_form_which={}, by_depth={}, leaves={}, unreachable_constructors=STATS.get("ctx_unreachable_constructors", []))
+    for c in cases:
+        for e in c["expect"]:
+            if e["cls"] == "shadow" and "cons" in e:
+                for con in e["cons"]:
+                    h["by_constructor"][con] = h["by_constructor"].get(con, 0) + 1
+                k = "%s:%s" % (e["form"], e["which"])
+                h["by_form_which"][k] = h["by_form_which"].get(k, 0) + 1
+                h["by_depth"][str(e["depth"])] = h["by_depth"].get(str(e["depth"]), 0) + 1
+                leaf = e["shape"].rsplit(":", 1)[-1]
+                h["leaves"][leaf] = h["leaves"].get(leaf, 0) + 1
     return h
 
 
